@@ -1,5 +1,5 @@
 import FGVerif.Model.C14
-import FGVerif.Proofs.C13Nodes
+import FGVerif.Proofs.C13Offset
 /-!
   C14 counting, part A (reference-configuration level, no graphs):
 
